@@ -7,9 +7,10 @@ are PARAMETERS: the theorems hold for every `verify` and every `H` (so in partic
 real ones); no cryptographic assumption is needed on the store side, because "valid" is stated
 as "`verify` accepts the item's own (salt, seq, v) buffer under its own key" and "the right
 place" as "`H` of key ‖ salt / of the encoded value". All theorems hold for both CAS rules.
-The client side of C12 (exts/getput) is a separate slice.
+The client side of C12 (exts/getput) is proved in Props/C12Client.lean and restated at the end.
 -/
 import DhtVerif.Lemmas.C12
+import DhtVerif.Props.C12Client
 namespace Dht
 open B44
 
@@ -169,5 +170,81 @@ example :
     ((Wrapper.put P 0 Store.empty good).1 ([7] ++ [1])).map (·.item.seq) = some 4 ∧
     (Wrapper.put P 0 Store.empty forged).2 = some 206 ∧
     (Wrapper.put P 0 Store.empty salty).2 = some 207 := by decide
+
+/-! ## Client side (exts/getput/getput.go) — proved in Props/C12Client.lean about Model/Getput.lean,
+restated here in full so that the audit of this file covers them. `evs` ranges over ALL finite
+sequences of query outcomes (`some reply` with any fields, `none` = no `r`), in arrival order. -/
+
+/-- Whatever `Get` hands its caller is the value of a reply that hashes to the target, or that
+carries a `seq`, whose key ‖ salt hashes to the target and whose signature verifies for exactly
+(salt, seq, v) under that key. -/
+theorem C12.client_accepts_only_valid (H : Bytes → Target) (verify : Key → Bytes → Bytes → Bool)
+    (target : Target) (salt : Bytes) (evs : List Getput.Event) (hseq : Getput.Int64Seqs evs)
+    (res : Getput.GetResult) (h : Getput.clientGet H verify target salt evs = some res) :
+    ∃ r, some r ∈ evs ∧ res.v = r.v ∧ res.sig = r.sig ∧
+      ((res.isMutable = false ∧ H r.bv = target) ∨
+       (res.isMutable = true ∧ r.seq = some res.seq ∧ H (r.k ++ salt) = target ∧
+          verify r.k (bufferToSign salt res.seq r.bv) r.sig = true)) :=
+  C12Client.client_accepts_only_valid H verify target salt evs hseq res h
+
+/-- The mutable value returned carries the largest sequence number among all accepted replies
+of the sequence; it is one of them, later arrivals are strictly smaller (ties: the later one). -/
+theorem C12.client_returns_max_seq (H : Bytes → Target) (verify : Key → Bytes → Bytes → Bool)
+    (target : Target) (salt : Bytes) (evs : List Getput.Event) (hseq : Getput.Int64Seqs evs)
+    (res : Getput.GetResult) (h : Getput.clientGet H verify target salt evs = some res)
+    (hm : res.isMutable = true) :
+    (∀ x ∈ Getput.results H verify target salt evs, x.isMutable = true ∧ x.seq ≤ res.seq) ∧
+    ∃ pre post, Getput.results H verify target salt evs = pre ++ res :: post ∧
+      (∀ x ∈ pre, x.seq ≤ res.seq) ∧ (∀ x ∈ post, x.seq < res.seq) :=
+  C12Client.client_returns_max_seq H verify target salt evs hseq res h hm
+
+/-- For every arrival order: a permutation of the outcomes changes neither whether a value is
+found, nor its kind, nor its sequence number. -/
+theorem C12.client_result_order_independent (H : Bytes → Target) (verify : Key → Bytes → Bytes → Bool)
+    (target : Target) (salt : Bytes) (evs evs' : List Getput.Event) (hp : evs'.Perm evs)
+    (hseq : Getput.Int64Seqs evs) :
+    (Getput.clientGet H verify target salt evs').map (fun r => (r.isMutable, r.seq)) =
+    (Getput.clientGet H verify target salt evs).map (fun r => (r.isMutable, r.seq)) :=
+  C12Client.client_result_order_independent H verify target salt evs evs' hp hseq
+
+/-- "Value not found" exactly when no reply of the sequence is accepted. -/
+theorem C12.client_not_found_iff (H : Bytes → Target) (verify : Key → Bytes → Bytes → Bool)
+    (target : Target) (salt : Bytes) (evs : List Getput.Event) :
+    Getput.clientGet H verify target salt evs = none ↔
+      ∀ r, some r ∈ evs → Getput.accept H verify target salt r = none :=
+  C12Client.client_not_found_iff H verify target salt evs
+
+/-- Removing an outcome that is not accepted, anywhere in the sequence, changes neither what
+`Get` returns nor the number `Put` derives. -/
+theorem C12.client_ignores_invalid (H : Bytes → Target) (verify : Key → Bytes → Bytes → Bool)
+    (target : Target) (salt : Bytes) (pre post : List Getput.Event) (e : Getput.Event)
+    (he : Getput.acceptEv H verify target salt e = none) :
+    Getput.clientGet H verify target salt (pre ++ e :: post) = Getput.clientGet H verify target salt (pre ++ post) ∧
+    Getput.putSeq H verify target salt (pre ++ e :: post) = Getput.putSeq H verify target salt (pre ++ post) :=
+  C12Client.client_ignores_invalid H verify target salt pre post e he
+
+/-- `Put` hands `seqToPut` the largest accepted mutable sequence number, or 0. -/
+theorem C12.put_autoseq_is_max (H : Bytes → Target) (verify : Key → Bytes → Bytes → Bool)
+    (target : Target) (salt : Bytes) (evs : List Getput.Event) :
+    0 ≤ Getput.putSeq H verify target salt evs ∧
+    (∀ x ∈ Getput.results H verify target salt evs, x.isMutable = true →
+        x.seq ≤ Getput.putSeq H verify target salt evs) ∧
+    (Getput.putSeq H verify target salt evs = 0 ∨
+      ∃ r, some r ∈ evs ∧ r.seq = some (Getput.putSeq H verify target salt evs) ∧ H (r.k ++ salt) = target ∧
+        verify r.k (bufferToSign salt (Getput.putSeq H verify target salt evs) r.bv) r.sig = true) :=
+  C12Client.put_autoseq_is_max H verify target salt evs
+
+/-- The outcome of `Get` under any arrival order satisfies the order-free check the driver
+applies when the arrival order was not observed. -/
+theorem C12.client_any_order_allowed (rs rs' : List Getput.GetResult) (hp : rs'.Perm rs)
+    (hr : Getput.SeqsInRange rs) : Getput.getAllowed rs (Getput.getFold rs') = true :=
+  C12Client.client_any_order_allowed rs rs' hp hr
+
+/-- The token `Put` sends a node is the one of that node's own reply (a responder without token
+is, with the filter as written in the code, kept with the empty token). -/
+theorem C12.put_token_is_nodes_own (effective : Bool) (e : Getput.Event) (tok : Bytes)
+    (h : Getput.closestEntryWith effective e = some tok) :
+    ∃ r, e = some r ∧ (r.token = some tok ∨ (r.token = none ∧ tok = [] ∧ effective = false)) :=
+  C12Client.put_token_is_nodes_own effective e tok h
 
 end Dht
